@@ -226,4 +226,4 @@ static bool replay(const std::string &text) {
     if (c.mode == 0) run_crash(c); else run_fault(c);
     return vp::stats().failures.empty();
 }
-int main(int argc, char **argv) { return vp::main_(argc, argv, {run, replay}); }
+VP_MAIN(run, replay)
